@@ -98,7 +98,19 @@ def run_property(pid, tier="quick", seed=0, verbose=False):
                                       lemmas=spec.get("lemmas", []))
     lock = load_lock().get(pid, {})
     findings = [f for f in load_findings() if f["property"] == pid]
-    known_keys = {f["key"]: f for f in findings}
+
+    class _Known(dict):
+        """exact keys, plus keys ending in `*` that match by prefix (e.g. `C09:*.size0` is written `C09:*.size0`)"""
+
+        def get(self, k, default=None):
+            if k in self:
+                return self[k]
+            import fnmatch
+            for pat, f in self.items():
+                if "*" in pat and fnmatch.fnmatchcase(k, pat):
+                    return f
+            return default
+    known_keys = _Known({f["key"]: f for f in findings})
 
     n_obl = len(results)
     discharged = [d for d in results if d["verdict"] == "discharged"]
